@@ -33,6 +33,13 @@ TRUSTED = [
     'C12: numpy dense linear algebra of the oracles (eigvalsh, kron, matrix products) at 1e-9',
 ]
 ASSUMPTIONS = [
+    'weak-pairing (Delta = 2^-7, 2^-10) and band-hopping (2^-10 .. 2^-17) Hamiltonians: tolerance 1e-7 instead of 1e-9 (second-order '
+    'amplitudes fall below EQ_TOLERANCE = 1e-8 and are pruned by the library); weaker pairing (2^-14 .. 2^-20) puts Bogoliubov '
+    'amplitudes within two decades of EQ_TOLERANCE where the unmodified code returns O(1)-wrong states (observed, see report) - '
+    'outside the regime this check decides, not generated',
+    'single-precision inputs (float32 / complex64) of the types stream: tolerance 1e-4 (LAPACK runs in single precision)',
+    'history stream: subtraction with a pairing term only in the subtrahend is avoided (PolynomialTensor.__sub__ with a key only in '
+    'the subtrahend is the known finding of C08, not the subject of C12)',
     'orbital energies / Schur forms enter the Model as the exact rational values of the floats the implementation computed',
 ]
 OPEN_STATEMENTS = [
@@ -122,6 +129,18 @@ def gen_ham(rng, n, kind):
                         v = complex(rand_dyadic_real(rng, 2), rng.choice([0, 0, 0.5, -1]))
                         M[blk * h + i, blk * h + j] = v
                         M[blk * h + j, blk * h + i] = np.conj(v)
+    elif base in ('band', 'imaghop'):
+        # (B) hopping amplitudes 1e-3 .. 1e-5 next to O(1) ones; (A) purely imaginary hopping (zero real part)
+        for i in range(n):
+            M[i, i] = rand_dyadic_real(rng)
+            for j in range(i + 1, n):
+                if rng.random() < 0.7:
+                    if base == 'band':
+                        v = rng.choice(BAND_HOP + [1.0, -0.5]) * rng.choice([1, -1, 1j])
+                    else:
+                        v = 1j * rand_dyadic_real(rng, 2)
+                    M[i, j] = v
+                    M[j, i] = np.conj(v)
     else:  # generic hermitian, possibly sparse
         for i in range(n):
             M[i, i] = rand_dyadic_real(rng)
@@ -166,10 +185,11 @@ def gen_ham(rng, n, kind):
 # weak pairing amplitudes (dyadic).  Smaller ones (2^-17, 2^-20) give Bogoliubov amplitudes within two decades of
 # EQ_TOLERANCE = 1e-8, where the thresholds of the library decide differently from exact arithmetic (measured: O(1)
 # residuals on the unmodified code) - outside the regime the check can decide.
-WEAK_DELTA = [2.0 ** -7, 2.0 ** -10, 2.0 ** -14]
+WEAK_DELTA = [2.0 ** -7, 2.0 ** -10]
+BAND_HOP = [2.0 ** -10, 2.0 ** -14, 2.0 ** -17]
 
 HAM_KINDS = ['diag', 'degenerate', 'spinblock', 'generic', 'generic', 'diag+bcs', 'diag+far', 'degenerate+bcs',
-             'generic+bcs', 'generic+generic', 'spinblock+generic', 'diag+generic', 'degenerate+far', 'diag+weak', 'generic+weak']
+             'generic+bcs', 'generic+generic', 'spinblock+generic', 'diag+generic', 'degenerate+far', 'diag+weak', 'generic+weak', 'band', 'imaghop', 'imaghop+bcs']
 
 
 def cjson(M):
@@ -338,7 +358,9 @@ def check_obj(ctx, s, c, H, Mc, D, const, spec_reqs, model_reqs, n_occ):
     of = ctx.of
     n = Mc.shape[0]
     # weak pairing: nearly singular annihilation block, truncations below EQ_TOLERANCE are amplified (see c11.WEAK_TOL)
-    TOL = WEAK_STATE_TOL if '+weak' in str(c.get('kind', '')) else globals()['TOL']
+    # weak pairing / band hopping: second-order amplitudes fall below EQ_TOLERANCE = 1e-8 and are pruned by the library,
+    # so its results are accurate to ~1e-8 only
+    TOL = WEAK_STATE_TOL if ('+weak' in str(c.get('kind', '')) or str(c.get('kind', '')).startswith('band')) else globals()['TOL']
     if c.get('single_precision'):
         TOL = SINGLE_TOL     # float32 / complex64 input: LAPACK works in single precision
     Hd = dense_H(Mc, D, const)
@@ -444,7 +466,7 @@ def stream_energies(ctx):
         s.count('oracle:subset-sum-spectrum')
         sp = np.array([rat_float(x) for x in a['spectrum']])
         s.float_comparisons += len(sp)
-        if sp.shape != w.shape or err(sp - w) > (WEAK_STATE_TOL if '+weak' in str(c.get('kind', '')) else TOL):
+        if sp.shape != w.shape or err(sp - w) > (WEAK_STATE_TOL if ('+weak' in str(c.get('kind', '')) or str(c.get('kind', '')).startswith('band')) else TOL):
             s.violate('subset sums of the orbital energies + constant are not the spectrum of H', c,
                       dict(ret, subset_sums=sp.tolist(), spectrum=w.tolist()))
     # Model: ground energy, default occupation energy, explicit energies
@@ -474,7 +496,7 @@ def stream_history(ctx):
     if ctx.drift:
         N = max(N, 200)
     spec_reqs, model_reqs = [], []
-    kinds = [k for k in HAM_KINDS if 'weak' not in k]
+    kinds = [k for k in HAM_KINDS if 'weak' not in k and not k.startswith('band')]
     for t in range(N):
         n = rng.choice([2, 2, 3, 3, 4])
         kind = rng.choice(kinds)
